@@ -31,17 +31,29 @@ class ExprCondModel(ExprModel):
         self.false_e = false_e
         
     def build(self, btor, ctx_width=-1):
+        from vsc.model.expr_bin_model import ExprBinModel
+        true_w = self.true_e.width()
+        false_w = self.false_e.width()
+        
+        if true_w > ctx_width:
+            ctx_width = true_w
+        if false_w > ctx_width:
+            ctx_width = false_w
+        
         cond_n = self.cond_e.build(btor)
-        true_n = self.true_e.build(btor)
-        false_n = self.false_e.build(btor)
+        is_signed = self.is_signed()
+        true_n = ExprBinModel.extend(
+            self.true_e.build(btor, ctx_width), ctx_width, is_signed, btor)
+        false_n = ExprBinModel.extend(
+            self.false_e.build(btor, ctx_width), ctx_width, is_signed, btor)
         
         return btor.Cond(cond_n, true_n, false_n)
     
     def is_signed(self):
-        return self.true_e.signed or self.false_e.signed
+        return self.true_e.is_signed() and self.false_e.is_signed()
     
     def width(self):
-        return 0
+        return max(self.true_e.width(), self.false_e.width())
         
     def accept(self, visitor):
         visitor.visit_expr_cond(self)
